@@ -353,12 +353,19 @@ inductive Version where
   | v1 | v1alpha
   deriving DecidableEq, Repr
 
+/-- what `stream.Send` returned: nil, io.EOF ("the stream has ended, call Recv for its status"), another error -/
+inductive SendRes where
+  | ok | eof | fail (e : Err)
+  deriving DecidableEq, Repr
+
 /-- what `connectClient` and the stream do for one reflection method -/
 structure Endpoint where
   /-- `conn.Stream` fails with this gRPC code -/
   connErr : Option Nat
   pol : Policy
   sched : Sched
+  /-- what the `Send` of the ListServices request returns (`client.listServiceNames`) -/
+  listSend : SendRes := .ok
 
 /-- what the two hashes identify: the file set (sorted by name) and the sorted service names.
     Kept as canonical lists (sha256 collisions are not modelled). -/
@@ -449,9 +456,18 @@ def resolveWithMethod (dedup : List DFile → List DFile) (cfg : Cfg) (ep : Endp
   match ep.connErr with
   | some c => (none, last, .error ⟨c⟩)
   | none =>
-    match runStream dedup cfg ep.pol ep.sched with
-    | (h, .error e) => (some h, last, .error e)
-    | (h, .ok ok) => (some h, finish last ok)
+    -- client.listServiceNames: a Send error other than io.EOF is reported at once; after io.EOF the
+    -- status is what Recv returns (a Recv that then succeeds is a misbehaving stream)
+    match ep.listSend with
+    | .fail e => (some [], last, .error e)
+    | .eof =>
+      match ep.pol [] .list with
+      | .error c => (some [(.list, .error c)], last, .error ⟨c⟩)
+      | a => (some [(.list, a)], last, .error ⟨codeUnknown⟩)
+    | .ok =>
+      match runStream dedup cfg ep.pol ep.sched with
+      | (h, .error e) => (some h, last, .error e)
+      | (h, .ok ok) => (some h, finish last ok)
 
 /-- the loop of `Resolver.resolve` over `methodPriority[i..]` -/
 def resolveFrom (dedup : List DFile → List DFile) (cfg : Cfg) (env : Version → Endpoint) (st : RState) :
